@@ -406,8 +406,9 @@ Qed.
 
 Theorem oracle_sound : forall c : case, corr_b c = true -> prop_b c = true.
 Proof.
-  intros [vals o0 os|base finals|st x res|act hi lo x act' hi' lo'|x act' hi' lo'|pm x c r|m pm x nm r|m c r] H;
-    cbn [corr_b prop_b] in *.
+  induction c as [vals o0 os|base finals|st x res|act hi lo x act' hi' lo'|x act' hi' lo'|pm x c r|m pm x nm r|m c r
+                  |pts ch c' IH]; intro H; cbn [corr_b prop_b] in *.
+  9:{ apply andb_true_iff in H. destruct H as [H1 H2]. rewrite H1. cbn [andb]. exact (IH H2). }
   - (* CSeq *)
     apply andb_true_iff in H. destruct H as [H0 H]. apply andb_true_intro. split.
     + exact (default_sound _ _ _ H0).
